@@ -1,1 +1,51 @@
 // Kani contract harnesses for /repo/arrow-select/src/interleave.rs (child module: sees private items via super::)
+use super::*;
+#[path = "/verif/kani/support/spec.rs"]
+mod spec;
+use spec::*;
+use arrow_buffer::{Buffer, ScalarBuffer};
+
+fn i32_array(store: &[i32; 2], bm: Option<&[u8; 1]>) -> PrimitiveArray<Int32Type> {
+    let nulls = bm.map(|bm| NullBuffer::new(BooleanBuffer::new(Buffer::from_slice_ref(bm), 0, 2)));
+    unsafe { PrimitiveArray::<Int32Type>::new_unchecked(ScalarBuffer::new(Buffer::from_slice_ref(store), 0, 2), nulls) }
+}
+
+// Contract (C03, layer 1, single attempt): interleave_primitive::<Int32Type> over 2 arrays x 2 rows and 2
+// picks (array, row) (symbolic, in range): output row k == values[pick_k.0][pick_k.1], null iff that
+// source row is null. The typed core takes &[&dyn Array] and returns ArrayRef, so the harness has to go
+// through dyn dispatch (as_any / downcast) on both sides.
+// @unit name=interleave_i32_2x2 props=C03 kind=bounded bound=arrays=2_rows=2_picks=2_validity_on_first_array_only fns=interleave_primitive,Interleave::new tier=thorough timeout=900 mem=10 note=not_confirmed_at_checkpoint
+#[kani::proof]
+#[kani::unwind(8)]
+#[kani::stub(alloc::fmt::format, stub_format)]
+fn interleave_i32_2x2() {
+    let s0: [i32; 2] = kani::any();
+    let s1: [i32; 2] = kani::any();
+    let bm: [u8; 1] = kani::any();
+    let a0 = i32_array(&s0, Some(&bm));
+    let a1 = i32_array(&s1, None);
+    let picks: [(usize, usize); 2] = kani::any();
+    kani::assume(picks[0].0 < 2 && picks[0].1 < 2 && picks[1].0 < 2 && picks[1].1 < 2);
+    let dt = DataType::Int32;
+    let r = interleave_primitive::<Int32Type>(&[&a0, &a1], &picks, &dt);
+    match &r {
+        Ok(out) => {
+            let out = out.as_any().downcast_ref::<PrimitiveArray<Int32Type>>().unwrap();
+            assert!(out.len() == 2);
+            let mut k = 0;
+            while k < 2 {
+                let (a, i) = picks[k];
+                let null = a == 0 && !bit(&bm, i);
+                assert!(out.is_null(k) == null);
+                if !null { assert!(out.value(k) == if a == 0 { s0[i] } else { s1[i] }); }
+                k += 1;
+            }
+        }
+        Err(_) => assert!(false),
+    }
+    kani::cover!(picks[0] == (1, 1) && picks[1] == (0, 0));
+    std::mem::forget(r);
+    std::mem::forget(dt);
+    std::mem::forget(a0);
+    std::mem::forget(a1);
+}
